@@ -46,9 +46,15 @@ class World:
         for name in ("p.bin", "w1.wenc", "w2.wenc"):
             shutil.copy(os.path.join(self.d, name), os.path.join(self.d, "blk", name))
             os.makedirs(os.path.join(self.d, "blk", name + ".wenc"))
+        # names of exact length: strlen + 5 >= 128 is "too long for the default output name"
+        for k in (121, 122, 123, 124):
+            shutil.copy(os.path.join(self.d, "p.bin"), os.path.join(self.d, "n" * k))
+        os.makedirs(os.path.join(self.d, "adir"))
         self.n = 0
 
     def in_path(self, long, dflt, f):
+        if isinstance(f, tuple):      # ("N", k): plain file whose name has exactly k characters; ("S", path): special file
+            return "n" * f[1] if f[0] == "N" else f[1]
         name = {"M": "missing.bin", "P": "p.bin", "W1": "w1.wenc", "W2": "w2.wenc"}[f]
         if long:
             return os.path.join(self.longrel, name)
@@ -86,9 +92,9 @@ def gen_vectors(ck, w, count):
                 txt = {"I": r.choice(["notakey", "A" * 24, "A" * 23 + "=", "", "A" * 21 + "=A="]), "V1": b64(w.K[1]), "V2": b64(w.K[2])}[t[1]]
                 argv += r.choice([["-k", txt], ["--key", txt], ["--key=" + txt]])
             elif k == "c":
-                argv += ["--cmode", str(t[1])]
+                argv += ["--cmode", str(t[2]) if len(t) > 2 else str(t[1])]
             elif k == "m":
-                argv += ["--hmode", str(t[1])]
+                argv += ["--hmode", str(t[2]) if len(t) > 2 else str(t[1])]
             elif k == "x":
                 argv += [r.choice([["-q"], ["--bogus"], ["-m", "3"], ["-z"]])][0]
         return argv
@@ -98,7 +104,7 @@ def gen_vectors(ck, w, count):
         if k in "edvVhnx":
             return k
         if k == "i":
-            return "i:%d:%d:%s" % (1 if t[1] else 0, 1 if t[2] else 0, t[3])
+            return "i:%d:%d:%s" % (1 if t[1] else 0, 1 if t[2] else 0, "P" if isinstance(t[3], tuple) else t[3])
         if k == "o":
             return "o:%d" % (1 if t[1] else 0)
         if k == "k":
@@ -125,6 +131,21 @@ def gen_vectors(ck, w, count):
         base.append([("e",), ("i", False, True, "P"), ("o", True), ("m", cval)])
         base.append([("d",), ("i", False, True, "W1"), ("o", True), ("k", "V1"), ("c", cval)])
     base.append([("e",), ("i", False, True, "P"), ("o", True), ("c", 1), ("c", 2)])
+    # text that is not a whole decimal number in range: delivered to the model as -1 (rejected)
+    for txt in ("abc", "4294967296", "1x", "", "99999999999999999999", "0x1", "2.0", " "):
+        base.append([("e",), ("i", False, True, "P"), ("o", True), ("c", -1, txt)])
+        base.append([("e",), ("i", False, True, "P"), ("o", True), ("m", -1, txt)])
+    for txt in ("+2", " 1", "02"):          # strtol accepts these spellings of an in-range number
+        base.append([("e",), ("i", False, True, "P"), ("o", True), ("c", int(txt), txt)])
+    # default output name at the boundary of fout[128]
+    for k in (121, 122, 123, 124):
+        base.append([("e",), ("i", k + 5 >= 128, True, ("N", k))])
+        base.append([("e",), ("i", k + 5 >= 128, True, ("N", k)), ("o", True)])
+    # inputs that open but are not regular files behave like an empty plain file (no crash)
+    for sp in ("adir", "/dev/null"):
+        base.append([("e",), ("i", False, True, ("S", sp)), ("o", True)])
+        base.append([("d",), ("i", False, True, ("S", sp)), ("o", True), ("k", "V1")])
+        base.append([("v",), ("i", False, True, ("S", sp)), ("k", "V1")])
     for toks in base:
         t2 = list(toks)
         res.append(t2)
@@ -269,7 +290,7 @@ def expected_success(toks):
         return False
     if m == "d" and not outs:
         return False
-    right = {"W1": "V1", "W2": "V2"}.get(last_in[3])
+    right = {"W1": "V1", "W2": "V2"}.get(last_in[3] if not isinstance(last_in[3], tuple) else None)
     return right is not None and keys[-1] == right
 
 
@@ -282,6 +303,13 @@ def check_effect(w, toks, argv):
         p = os.path.join(w.d, outs[-1])
         if not os.path.exists(p) or open(p, "rb").read() != w.plain:
             return "decryption exited 0 but the output file does not hold the original plaintext"
+    if m[0] == "e" and not outs:
+        ins = [x for x in toks if x[0] == "i"]
+        if ins:
+            ip = w.in_path(ins[-1][1], ins[-1][2], ins[-1][3])
+            p = os.path.join(w.d, ip + ".wenc")
+            if not os.path.isfile(p) or os.path.getsize(p) < 48 + 80 + 16:
+                return "encryption with the default output exited 0 but %s.wenc was not written" % ip[-30:]
     if m[0] == "e" and outs:
         p = os.path.join(w.d, outs[-1])
         if not os.path.exists(p) or os.path.getsize(p) < 48 + 80 + 16:
